@@ -56,6 +56,51 @@ fn dispatch(op: &str, args: &[&str]) -> Ans {
     ("bad-op".into(), "bad-op".into())
 }
 
+/// What an application may have done on this thread just before the request: incremental states of every kind fed a few bytes and
+/// ABANDONED (dropped without finalisation — an early return, a `?`), and verifications that were rightly REJECTED at their very
+/// first step (undecodable / small-order public key).  None of it may influence the request that follows: the functions keep no
+/// memory between calls.  (Nothing here draws from the entropy source.)
+fn noise() {
+    use dryoc::classic::crypto_auth::*;
+    use dryoc::classic::crypto_generichash::*;
+    use dryoc::classic::crypto_hash::*;
+    use dryoc::classic::crypto_onetimeauth::*;
+    use dryoc::classic::crypto_sign::*;
+    let _ = catch_unwind(AssertUnwindSafe(|| {
+        let mut a = crypto_onetimeauth_init(&[7u8; 32]);
+        crypto_onetimeauth_update(&mut a, b"abcde");
+        drop(a);
+        if let Ok(mut g) = crypto_generichash_init(None, 32) {
+            crypto_generichash_update(&mut g, &[0x51u8; 133]);
+            drop(g);
+        }
+        if let Ok(mut g) = crypto_generichash_init(Some(&[9u8; 32][..]), 64) {
+            crypto_generichash_update(&mut g, b"xyz");
+            drop(g);
+        }
+        let mut h = crypto_hash_sha512_init();
+        crypto_hash_sha512_update(&mut h, b"abandoned");
+        drop(h);
+        let mut m = crypto_auth_init(&[3u8; 32]);
+        crypto_auth_update(&mut m, b"abandoned too");
+        drop(m);
+        let mut s = crypto_sign_init();
+        crypto_sign_update(&mut s, b"never signed");
+        drop(s);
+        // rejected at the public-key step: the identity (small order) and a y that is not on the curve
+        let sig = [0x11u8; 64];
+        let mut small = [0u8; 32];
+        small[0] = 1;
+        let _ = crypto_sign_verify_detached(&sig, b"m", &small);
+        let mut off = [0u8; 32];
+        off[0] = 2;
+        let _ = crypto_sign_verify_detached(&sig, b"m", &off);
+        let mut st = crypto_sign_init();
+        crypto_sign_update(&mut st, b"ph");
+        let _ = crypto_sign_final_verify(st, &sig, &small);
+    }));
+}
+
 fn main() {
     if std::env::var_os("RUNNER_VERBOSE").is_none() {
         std::panic::set_hook(Box::new(|_| {}));
@@ -89,6 +134,7 @@ fn main() {
                     let mut first: Option<(String, String)> = None;
                     let mut answer = None;
                     for _ in 0..repeat {
+                        noise();
                         let r = catch_unwind(AssertUnwindSafe(|| dispatch(toks[1], &toks[2..]))).unwrap_or_else(|_| ("panic".to_string(), "n/a".to_string()));
                         match &first {
                             None => first = Some(r),
@@ -128,6 +174,7 @@ fn main() {
         let id = toks[0];
         let op = toks[1];
         let args = &toks[2..];
+        noise();
         alloc_count::reset();
         let r = catch_unwind(AssertUnwindSafe(|| dispatch(op, args)));
         let maxalloc = alloc_count::max_single();
